@@ -413,6 +413,13 @@ func (d *dealerPart) OnSent(w *World, st *StepRec, sr sentRec, exp Exp) *Violati
 		}
 		c := d.calls[ck{sr.S, req}]
 		if c == nil {
+			if d.greyReq[ck{sr.S, req}] {
+				// a call the model does not follow (a silent session was involved): its callee
+				// may be sent an INTERRUPT, which takes a place in a silent callee's queue
+				for x := range w.stalled {
+					w.unsure[x] = true
+				}
+			}
 			w.st.Label("cancel_no_such_call")
 			return nil
 		}
@@ -860,6 +867,12 @@ func (d *dealerPart) onCallMsg(w *World, st *StepRec, s int, realm string, rc *R
 				}
 				for _, r2 := range cands {
 					r2.rrLast = -1
+				}
+				if tmo, _ := wamp.AsInt64(m.Options["timeout"]); tmo > 0 {
+					// the router's timer may later send an INTERRUPT into a silent callee's queue
+					for x := range w.stalled {
+						w.unsure[x] = true
+					}
 				}
 				w.st.Label("grey:call_involving_stalled_session")
 				for _, x := range r.members {
